@@ -2,7 +2,9 @@
 from specs import keys, misc, chunker, snapshot
 
 LEVEL = 'proof'
-UNITS = [chunker.next_cut_frame('C11'), chunker.c10_lemmas('C11'), chunker.call_unit('C11'), snapshot.stream_unit('C11'), misc.chunkify_unit('C11')] + keys.make_key_units('C11')
+UNITS = [chunker.next_cut_frame('C11'), chunker.c10_lemmas('C11'), chunker.call_unit('C11'), snapshot.stream_unit('C11'), snapshot.head_unit('C11'), snapshot.flatten_unit('C11'), misc.chunkify_unit('C11')] + keys.make_key_units('C11')
+from specs import families as _families
+UNITS = _families.with_families('C11', UNITS)
 BOUNDED = [
     {'name': 'C11.resync', 'script': 'bounded/c11_resync.py', 'timeout': 600,
      'bound': 'statistical: 16 (thorough: 300) seeded high-entropy streams of 24-64 KiB, min=64, max=1024, one aligned insert/delete/overwrite each; '
